@@ -41,6 +41,18 @@ def _ctx(dry_run):
     return CodemodExecutionContext(root, dry_run, False, _ST["reg"], _ST["prov"], PythonRepoManager(root), [], [], {}, 1), root
 
 
+def _block_result(first, last, fid="BLOCK", twice=False):
+    """A finding whose range spans several lines (and, optionally, that has two locations starting on the same line)."""
+    from codemodder.codetf import Finding, Rule
+    from codemodder.result import LineInfo
+    from core_codemods.sonar.results import SonarLocation, SonarResult
+
+    locs = [SonarLocation(file=Path("f"), start=LineInfo(first, 0), end=LineInfo(last, 3))]
+    if twice:
+        locs.append(SonarLocation(file=Path("f"), start=LineInfo(first, 1), end=LineInfo(last, 4)))
+    return SonarResult(finding_id=fid, rule_id="rule-x", locations=locs, finding=Finding(id=fid, rule=Rule(id="rule-x", name="Rule X")))
+
+
 def _results(lines_cols):
     """Tool results with distinguishable finding ids at the given (line, column) starts."""
     from codemodder.codetf import Finding, Rule
@@ -73,6 +85,11 @@ def regex_cases(tier):
                     subsets = list(itertools.chain.from_iterable(itertools.combinations(range(1, k + 1), r) for r in range(k + 1)))
                     for sub in subsets if (k <= 3) else subsets[:: max(1, len(subsets) // 6)]:
                         cases.append(("regex", seq, eol, pat, sub))
+                    if k >= 2 and pat == "plain":
+                        # a finding spanning the whole file next to line findings; a finding with two locations on one line
+                        for sub in subsets[:: max(1, len(subsets) // 4)]:
+                            cases.append(("regex", seq, eol, pat, sub + ("block",)))
+                            cases.append(("regex", seq, eol, pat, sub + ("twice",)))
     return cases
 
 
@@ -84,11 +101,20 @@ def regex_eval(case):
     sep, final = EOLS[eol]
     text = sep.join(LINE_KINDS[k] for k in seq) + (sep if final else "")
     out = []
+    block = sub is not None and "block" in sub
+    twice = sub is not None and "twice" in sub
+    if sub is not None:
+        sub = tuple(x for x in sub if isinstance(x, int))
+    nlines = len(seq)
     for dry in (False, True):
         ctx, root = _ctx(dry)
         f = root / "page.html"
         f.write_bytes(text.encode())
         results = None if sub is None else _results([(l, 0) for l in sub])
+        if block:
+            results.append(_block_result(1, nlines))
+        if twice:
+            results.append(_block_result(1, 1, "TWICE", twice=True))
         fc = FileContext(root, f, [], [], results if results is not None else [])
         cls = RegexTransformerPipeline if sub is None else SastRegexTransformerPipeline
         pipe = cls(PATTERNS[pat], "https://", "use https")
@@ -100,7 +126,8 @@ def regex_eval(case):
         after = f.read_bytes().decode()
         lines = text.splitlines(True)
         rx = PATTERNS[pat]
-        should = [i + 1 for i, l in enumerate(lines) if re.sub(rx, "https://", l) != l and (sub is None or (i + 1) in sub)]
+        reported = None if sub is None else set(sub) | ({1} if (block or twice) else set())
+        should = [i + 1 for i, l in enumerate(lines) if re.sub(rx, "https://", l) != l and (reported is None or (i + 1) in reported)]
         expected = "".join(re.sub(rx, "https://", l) if (i + 1) in should else l for i, l in enumerate(lines))
         tag = f"regex|{'sast' if sub is not None else 'plain'}"
         if dry:
@@ -115,7 +142,7 @@ def regex_eval(case):
             if got_lines != should:
                 out.append((f"{tag}|change-lines", f"changes name lines {got_lines}, edited lines are {should}"))
             for c in cs.changes:
-                exp_f = sorted(f"F{c.lineNumber}:0" for _ in [0] if sub is not None and c.lineNumber in sub)
+                exp_f = sorted([f"F{c.lineNumber}:0"] * (sub is not None and c.lineNumber in sub) + ["BLOCK"] * block + ["TWICE"] * (twice and c.lineNumber == 1))
                 got_f = sorted(x.id for x in (c.findings or []))
                 if got_f != exp_f:
                     out.append((f"{tag}|change-findings", f"change at line {c.lineNumber} carries findings {got_f}, expected {exp_f}"))
@@ -124,7 +151,12 @@ def regex_eval(case):
                 out.append((f"{tag}|{err[0]}", f"diff is not faithful: {err[1]}"))
         if sub is not None and not dry:
             unf = sorted(u.lineNumber for u in fc.unfixed_findings)
-            exp_unf = sorted(l for l in sub if l <= len(lines) and re.sub(rx, "https://", lines[l - 1]) == lines[l - 1])
+            exp_unf = sorted(x for l in sorted(reported) if l <= len(lines) and re.sub(rx, "https://", lines[l - 1]) == lines[l - 1]
+                             for x in [l] * ((l in sub) + (block and l == 1) + (twice and l == 1) + (block and l != 1 and False)))
+            if block:
+                # the block finding covers every line: it is reported unfixed with each reported line that could not be edited
+                exp_unf = sorted(x for l in sorted(reported) if l <= len(lines) and re.sub(rx, "https://", lines[l - 1]) == lines[l - 1]
+                                 for x in [l] * ((l in sub) + 1 + (twice and l == 1)))
             if unf != exp_unf:
                 out.append((f"{tag}|unfixed-findings", f"unfixed findings at lines {unf}, expected {exp_unf}"))
     return sorted(set(out)), bool(should)
